@@ -192,6 +192,16 @@ fn nonmember_json(c: &NonMember) -> Value {
 
 pub fn replay(case: &Value) -> Result<Verdict, String> {
     match case["kind"].as_str() {
+        Some("text-member") => {
+            let text = case["input"].as_str().ok_or("input")?;
+            let exp = term::decode_expr(case["expected"].as_str().ok_or("expected")?)?;
+            Ok(match parse_tree(text) {
+                Err(p) => Verdict::Fail(format!("parse panicked on {text:?}: {p}")),
+                Ok(Err(e)) => Verdict::Fail(format!("{text:?} (expected {exp:?}) was rejected: {e}")),
+                Ok(Ok((_, _, tree))) if tree == exp => Verdict::Pass { nt: true, class: "member" },
+                Ok(Ok((_, _, tree))) => Verdict::Fail(format!("{text:?}: expected {exp:?}, got {tree:?}")),
+            })
+        }
         Some("long-word") => Ok(judge_long_word(case["keyword"].as_str().unwrap_or("-name"), case["unit"].as_str().unwrap_or("a"), case["count"].as_u64().unwrap_or(1) as usize, case["tail"].as_str().unwrap_or(""), case["quoted"].as_bool().unwrap_or(false))),
         Some("member") => {
             let leaf = term::decode_expr(case["leaf"].as_str().ok_or("no leaf")?)?;
@@ -448,6 +458,23 @@ pub fn run(ctx: &Ctx) -> Report {
                     let v = judge_long_word(kw, unit, n, tail, quoted);
                     st.record(&v, stable_hash(&(kw, n, unit, tail, quoted)), true, || json!({"kind": "long-word", "keyword": kw, "unit": unit, "count": n, "tail": tail, "quoted": quoted}));
                 }
+            }
+        }
+    }
+    // octal modes written with many leading zeros (every width 3..40): members like the short spelling
+    for v in [0u32, 0o7, 0o644, 0o755, 0o4755, 0o7777, 0o1000] {
+        for w in 3..=40usize {
+            for (pre, kind) in [("", PKind::Equal), ("-", PKind::AtLeast), ("/", PKind::Any)] {
+                let digits = format!("{v:0w$o}");
+                let text = format!("-perm {pre}{digits}");
+                let exp = E::T(Tst::Perm(kind, v));
+                let vd = match parse_tree(&text) {
+                    Err(p) => Verdict::Fail(format!("parse panicked on {text:?}: {p}")),
+                    Ok(Err(e)) => Verdict::Fail(format!("{text:?} is an octal mode written with {} digits (expected {exp:?}) but was rejected: {e}", digits.len())),
+                    Ok(Ok((_, _, tree))) if tree == exp => Verdict::Pass { nt: w > 4, class: "member (octal mode, zero-padded)" },
+                    Ok(Ok((_, _, tree))) => Verdict::Fail(format!("{text:?}: expected {exp:?}, got {tree:?}")),
+                };
+                st.record(&vd, stable_hash(&text), true, || json!({"kind": "text-member", "input": text, "expected": term::encode_expr(&exp)}));
             }
         }
     }
